@@ -2325,6 +2325,11 @@ static int add_mapping_entry(vnaproperty_yaml_t *vymlp, int t_map,
 }
 
 /*
+ * VNAPROPERTY_MAX_DEPTH: deepest nesting of collections accepted on import
+ */
+#define VNAPROPERTY_MAX_DEPTH	1000
+
+/*
  * yaml_ancestor_t: chain of collection nodes being imported, used to
  *	detect YAML aliases that refer to one of their own ancestors
  */
@@ -2345,6 +2350,7 @@ static int yaml_import(vnaproperty_yaml_t *vymlp,
 {
     yaml_document_t *document = vymlp->vyml_document;
     yaml_ancestor_t self = { node, up };
+    int depth = 0;
 
     for (const yaml_ancestor_t *yap = up; yap != NULL; yap = yap->ya_up) {
 	if (yap->ya_node == node) {
@@ -2353,6 +2359,19 @@ static int yaml_import(vnaproperty_yaml_t *vymlp,
 		    vymlp->vyml_filename, node->start_mark.line + 1);
 	    goto out;
 	}
+	++depth;
+    }
+
+    /*
+     * The import, and every later walk of the tree, recurses once per
+     * level: refuse input nested deeply enough to exhaust the stack.
+     */
+    if (depth >= VNAPROPERTY_MAX_DEPTH) {
+	_vnaproperty_yaml_error(vymlp, VNAERR_SYNTAX,
+		"%s (line %ld) error: collections nested more than %d deep",
+		vymlp->vyml_filename, node->start_mark.line + 1,
+		VNAPROPERTY_MAX_DEPTH);
+	goto out;
     }
     switch (node->type) {
     case YAML_SCALAR_NODE:
